@@ -248,11 +248,22 @@ def instantiate(abs_cals: list["AbsCal"], formulas: list[Any], rounds: int = 2) 
             for yy in (ac.min_year, ac.max_year + 1):
                 yt = _t(yy)
                 years.setdefault(yt.get_id(), yt)
-            ylist = [sym.mk_int(y) for y in years.values()]
-            if len(ylist) > 16:
-                ylist = ylist[:16]
-            for y in ylist:
+            # y + 1 is tied to y by AX-DIY (year axiom of y), so it need not take part in the quadratic AX-MONO pairing
+            def _succ_of_known(t: Any) -> bool:
+                if z3.is_add(t) and t.num_args() == 2:
+                    x, k = t.arg(0), t.arg(1)
+                    if z3.is_int_value(x):
+                        x, k = k, x
+                    return z3.is_int_value(k) and k.as_long() == 1 and x.get_id() in years
+                return False
+
+            everyone = [sym.mk_int(y) for y in years.values()]
+            for y in everyone[:40]:
                 new.extend(ac.ax_year(y))
+            base_terms = [y for y in years.values() if not _succ_of_known(y)]
+            # numerals and plain variables first: range ends and inputs matter most when the list has to be cut
+            base_terms.sort(key=lambda t: 0 if z3.is_int_value(t) else (1 if z3.is_const(t) else 2))
+            ylist = [sym.mk_int(y) for y in base_terms[:22]]
             for i in range(len(ylist)):
                 for j in range(i + 1, len(ylist)):
                     new.append(ac.ax_mono(ylist[i], ylist[j]))
